@@ -57,18 +57,19 @@ Eval == /\ phase = "todo" /\ phase' = "done" /\ UNCHANGED k
 Spec == Init /\ [][Eval]_vars
 AllTrees == bad = {}
 \* ---- B1: hyperedge scenarios (terminal sets x junction position x improvement options x follow-up transaction) ----
+\* follow-up: 0 none, 1 a terminal's shape moved, 2 an empty transaction, 3 a terminal's shape and every junction moved in one transaction
 \* terminals are shape pins (the statement's quantifier): classes 1 and 2 of three shapes
 TermCat == {<<1, 1, 1>>, <<1, 1, 2>>, <<1, 2, 1>>, <<1, 2, 2>>, <<1, 3, 1>>, <<1, 3, 2>>}
 Scenarios0 == {[geo |-> 0, terms |-> SetToSeq(T), jp |-> jp, opts |-> op, follow |-> f] :
-                 T \in {T \in SUBSET TermCat : Cardinality(T) \in {3, 4}}, jp \in {<<12, 11>>, <<11, 12>>, <<5, 12>>}, op \in {2, 4, 6, 3}, f \in 0..2}
+                 T \in {T \in SUBSET TermCat : Cardinality(T) \in {3, 4}}, jp \in {<<12, 11>>, <<11, 12>>, <<5, 12>>}, op \in {2, 4, 6, 3}, f \in 0..3}
 \* second geometry: a junction with a shape straight above and below it and two or three shapes further along one line, whose pins face
 \* that line -- several connectors leave the junction along a shared path while others leave in other directions (degree 4..5)
 TermCat1 == {<<1, s, 1>> : s \in 1..5}
 Scenarios1 == {[geo |-> 1, terms |-> SetToSeq(T), jp |-> jp, opts |-> op, follow |-> f] :
-                 T \in {T \in SUBSET TermCat1 : Cardinality(T) \in {4, 5}}, jp \in {<<10, 30>>, <<25, 30>>, <<10, 20>>}, op \in {2, 4, 6, 3}, f \in 0..2}
+                 T \in {T \in SUBSET TermCat1 : Cardinality(T) \in {4, 5}}, jp \in {<<10, 30>>, <<25, 30>>, <<10, 20>>}, op \in {2, 4, 6, 3}, f \in 0..3}
 \* registration by terminal list instead of by junction (no junction or connector exists beforehand: the rerouter creates them)
 Scen2(g, Cat) == {[geo |-> g, reg |-> 1, terms |-> SetToSeq(T), jp |-> <<0, 0>>, opts |-> op, follow |-> f] :
-                    T \in {T \in SUBSET Cat : Cardinality(T) \in {3, 4}}, op \in {2, 6}, f \in 0..2}
+                    T \in {T \in SUBSET Cat : Cardinality(T) \in {3, 4}}, op \in {2, 6}, f \in 0..3}
 Scenarios2 == Scen2(0, TermCat) \cup Scen2(1, TermCat1)
 Scenarios == {[geo |-> x.geo, reg |-> 0, terms |-> x.terms, jp |-> x.jp, opts |-> x.opts, follow |-> x.follow] : x \in Scenarios0 \cup Scenarios1} \cup Scenarios2
 GenInit == /\ JsonSerialize(IOEnv.HYPERGEN, SetToSeq(Scenarios)) /\ k = Cardinality(Scenarios) /\ phase = "gen" /\ bad = {}
